@@ -33,6 +33,14 @@ Proof.
   - intros Hnew. rewrite Hnew in H1. cbn in H1. apply String.eqb_eq. exact H1.
 Qed.
 
+(* memory a checked wrapper obtained with new is never handed out as "nothing to release" *)
+Theorem checked_new_is_released : forall l s,
+  lib_ok l = true -> In s (rl_sites l) -> rs_how s = "new" -> rs_code s <> 0.
+Proof.
+  intros l s Hok Hin Hnew E. unfold lib_ok in Hok. apply andb_true_iff in Hok. destruct Hok as [_ Hs].
+  rewrite forallb_forall in Hs. specialize (Hs s Hin). unfold site_ok in Hs. rewrite E, Hnew in Hs. discriminate.
+Qed.
+
 (* distinct codes: the case found for a code is the only one *)
 Lemma codes_distinct_unique cs : codes_distinct cs = true -> forall c d, In c cs -> In d cs -> rc_code c = rc_code d -> c = d.
 Proof.
